@@ -197,6 +197,9 @@ class Verifier:
                 self.scopes[-1]['v'] |= set(s[1])
             elif k == 'd':
                 for a in s[1]:
+                    if a not in self.active_vars():
+                        raise MMError(f'$d names undeclared variable {a}')
+                for a in s[1]:
                     for b in s[1]:
                         if a != b:
                             self.scopes[-1]['d'].add(frozenset((a, b)))
